@@ -33,7 +33,7 @@ ASSUMPTIONS = ["grid gaps shorter than the roll window (expiry - last trading da
                "chain spans cover the process clock (K3 is reported under C10 only)"]
 REQUIRED = ["C11:lead-resolution", "C11:never-past-last-trading", "C11:monotone", "C11:others-flat", "C11:not-held-at-expiry",
             "C11:roll-closes-old-lead", "C11:new-lead-at-own-quotes"]
-REQUIRED_CATS = ["another-chain-environment-later-in-time", "market-data-keyed-by-chain", "resolution:explicit-unsorted-list", "roll-inside-latency-window", "rolling:ES", "rolling:NK", "rolling:VX", "rolling:ZN", "rolled-while-holding"]
+REQUIRED_CATS = ["rolled-while-holding-below-threshold", "another-chain-environment-later-in-time", "market-data-keyed-by-chain", "resolution:explicit-unsorted-list", "roll-inside-latency-window", "rolling:ES", "rolling:NK", "rolling:VX", "rolling:ZN", "rolled-while-holding"]
 REQUIRED_HITS = ["Broker.transact", "Broker.rebalance"]
 TECHNIQUE = "runtime monitoring: complete enumeration of roll instants against a linear-scan reference; holdings invariants after every step of rolling episodes"
 LEVEL_TEXT = ("Roll instants of every built-in class are enumerated completely per decade (exact instant and +-1us) against an "
@@ -197,6 +197,10 @@ def case(ctx, i, tier):
             if k > len(grid) + 2:
                 raise RuntimeError("step cap")
             w = rng.choice([0.0, rng.uniform(-1.5, 1.5), rng.uniform(-1.5, 1.5)]) if not intraday else rng.choice([-1, 1]) * rng.uniform(0.3, 1.5)
+            if thr > 0 and not intraday and rng.random() < 0.35:
+                # a position SMALLER than the trading threshold is carried (possibly into a roll: the old lead must be
+                # closed however small it is)
+                w = rng.choice([-1, 1]) * thr * rng.uniform(1.05, 1.6) if env.broker.holdings_quantity.get(prev_lead, 0.0) == 0 else w * 0 + rng.choice([-1, 1]) * thr * rng.uniform(0.2, 0.8)
             a = np.array([w] + ([rng.uniform(-0.3, 0.5)] if etf is not None else []))
             if other is not None and not other_done and rng.random() < 0.7:
                 other_done = other.step(np.array([rng.uniform(-1, 1)]))[2]
@@ -238,6 +242,9 @@ def case(ctx, i, tier):
                 if held != 0:
                     rolls_holding += 1
                     ctx.cat("rolled-while-holding")
+                    wpre = rb.context_pre.weights.get(prev_lead, 0.0)
+                    if thr > 0 and abs(wpre) < thr:
+                        ctx.cat("rolled-while-holding-below-threshold")
                     t_old = [t for t in rb.trades if t.contract is prev_lead or t.contract == prev_lead]
                     ctx.check("C11:roll-closes-old-lead", len(t_old) == 1 and t_old[0].quantity == -held,
                               old=prev_lead.symbol, held=held, trades=[(t.contract.symbol, t.quantity) for t in rb.trades])
